@@ -19,6 +19,7 @@ def main():
         i = args.index("--tier"); tier = args[i + 1]; del args[i:i + 2]
     names = args or sorted(os.listdir(SEEDED))
     results = {}
+    touched = set()
     for name in names:
         d = os.path.join(SEEDED, name)
         if not os.path.exists(os.path.join(d, "patch.diff")):
@@ -36,6 +37,7 @@ def main():
                 results[name] = "PATCH-DOES-NOT-APPLY " + r.stderr.strip()[:200]
                 print(name, results[name]); continue
             for p in props:
+                touched.add(p)
                 env = dict(os.environ, VH_REPO=tmp)
                 r = subprocess.run(["./check", p, "--tier", tier], cwd=HERE, env=env, capture_output=True, text=True)
                 viol = [l for l in r.stdout.splitlines() if l.startswith("VIOLATION")]
@@ -47,7 +49,10 @@ def main():
                     print(r.stdout[-1500:])
         finally:
             shutil.rmtree(tmp, ignore_errors=True)
-    subprocess.run(["git", "checkout", "--", "evidence"], cwd=HERE)
+    # the runs above rewrote the evidence files of the properties they touched: put the committed ones back
+    # (only those - other work in progress in evidence/ is left alone)
+    for pp in sorted(touched):
+        subprocess.run(["git", "checkout", "--", "evidence/%s.json" % pp], cwd=HERE, stderr=subprocess.DEVNULL)
     # keep the latest verdict per (seed, property) - the table of DESIGN.md section 12 is generated from it
     rp = os.path.join(SEEDED, "RESULTS.json")
     with open(rp + ".lock", "w") as lk:
